@@ -202,3 +202,47 @@ Definition rc_kc : node :=
           Node KAstTypeBasic [73;78;84;52] 83 (mkRange (mkPos 6 14) (mkPos 6 18)) [(0, AT (mkTok 83 (mkRange (mkPos 6 14) (mkPos 6 18)) TIdentifier [73;78;84;52]))] []]];
       Node KAstMethodBody [109;101;116;104;111;100;95;98;111;100;121] 89 (mkRange (mkPos 6 20) (mkPos 6 28)) [] []]].
 
+(* real parser, text: 'class aBeta\nFb : aBeta\nfunc GetLink(p2 : int4) return int4\n  var GetLink : int4\n  x = Fb.GetLink(1)\nendfunc\n' *)
+Definition hd_own : node :=
+  Node KAstRoot [] 0 (mkRange (mkPos 0 0) (mkPos 0 0)) [] [
+    Node KAstClass [97;66;101;116;97] 0 (mkRange (mkPos 0 0) (mkPos 0 11)) [(1, AT (mkTok 6 (mkRange (mkPos 0 6) (mkPos 0 11)) TIdentifier [97;66;101;116;97])); (2, AL [])] [];
+    Node KAstGlobalVariableDeclaration [70;98] 12 (mkRange (mkPos 1 0) (mkPos 1 10)) [(1, AT (mkTok 12 (mkRange (mkPos 1 0) (mkPos 1 2)) TIdentifier [70;98])); (6, AN 0)] [
+      Node KAstTypeBasic [97;66;101;116;97] 17 (mkRange (mkPos 1 5) (mkPos 1 10)) [(0, AT (mkTok 17 (mkRange (mkPos 1 5) (mkPos 1 10)) TIdentifier [97;66;101;116;97]))] []];
+    Node KAstFunction [71;101;116;76;105;110;107] 23 (mkRange (mkPos 2 0) (mkPos 5 7)) [(5, AL [(mkTok 100 (mkRange (mkPos 5 0) (mkPos 5 7)) TEndFunc [101;110;100;102;117;110;99])]); (6, AN 0)] [
+      Node KAstTerminal [71;101;116;76;105;110;107] 28 (mkRange (mkPos 2 5) (mkPos 2 12)) [(0, AT (mkTok 28 (mkRange (mkPos 2 5) (mkPos 2 12)) TIdentifier [71;101;116;76;105;110;107]))] [];
+      Node KAstTypeBasic [105;110;116;52] 54 (mkRange (mkPos 2 31) (mkPos 2 35)) [(0, AT (mkTok 54 (mkRange (mkPos 2 31) (mkPos 2 35)) TIdentifier [105;110;116;52]))] [];
+      Node KAstParameterDeclarationList [112;97;114;97;109;95;100;101;99;108;115] 35 (mkRange (mkPos 2 12) (mkPos 2 23)) [] [
+        Node KAstParameterDeclaration [112;50] 36 (mkRange (mkPos 2 13) (mkPos 2 22)) [(1, AT (mkTok 36 (mkRange (mkPos 2 13) (mkPos 2 15)) TIdentifier [112;50])); (7, AL [])] [
+          Node KAstTypeBasic [105;110;116;52] 41 (mkRange (mkPos 2 18) (mkPos 2 22)) [(0, AT (mkTok 41 (mkRange (mkPos 2 18) (mkPos 2 22)) TIdentifier [105;110;116;52]))] []]];
+      Node KAstMethodBody [109;101;116;104;111;100;95;98;111;100;121] 61 (mkRange (mkPos 3 2) (mkPos 4 19)) [] [
+        Node KAstLocalVariableDeclaration [71;101;116;76;105;110;107] 61 (mkRange (mkPos 3 2) (mkPos 3 20)) [(1, AT (mkTok 65 (mkRange (mkPos 3 6) (mkPos 3 13)) TIdentifier [71;101;116;76;105;110;107]))] [
+          Node KAstTypeBasic [105;110;116;52] 75 (mkRange (mkPos 3 16) (mkPos 3 20)) [(0, AT (mkTok 75 (mkRange (mkPos 3 16) (mkPos 3 20)) TIdentifier [105;110;116;52]))] []];
+        Node KAstBinaryOp [61] 82 (mkRange (mkPos 4 2) (mkPos 4 19)) [(4, AT (mkTok 84 (mkRange (mkPos 4 4) (mkPos 4 5)) TEquals [61]))] [
+          Node KAstTerminal [120] 82 (mkRange (mkPos 4 2) (mkPos 4 3)) [(0, AT (mkTok 82 (mkRange (mkPos 4 2) (mkPos 4 3)) TIdentifier [120]))] [];
+          Node KAstBinaryOp [46] 86 (mkRange (mkPos 4 6) (mkPos 4 19)) [(4, AT (mkTok 88 (mkRange (mkPos 4 8) (mkPos 4 9)) TDot [46]))] [
+            Node KAstTerminal [70;98] 86 (mkRange (mkPos 4 6) (mkPos 4 8)) [(0, AT (mkTok 86 (mkRange (mkPos 4 6) (mkPos 4 8)) TIdentifier [70;98]))] [];
+            Node KAstMethodCall [71;101;116;76;105;110;107] 89 (mkRange (mkPos 4 9) (mkPos 4 19)) [] [
+              Node KAstTerminal [49] 97 (mkRange (mkPos 4 17) (mkPos 4 18)) [(0, AT (mkTok 97 (mkRange (mkPos 4 17) (mkPos 4 18)) TNumericLiteral [49]))] []]]]]]].
+
+(* real parser, text: 'class aBeta\nFb : abeta\nfunc GetLink(p2 : int4) return int4\n  var GetLink : int4\n  x = Fb.GetLink(1)\nendfunc\n' *)
+Definition hd_other : node :=
+  Node KAstRoot [] 0 (mkRange (mkPos 0 0) (mkPos 0 0)) [] [
+    Node KAstClass [97;66;101;116;97] 0 (mkRange (mkPos 0 0) (mkPos 0 11)) [(1, AT (mkTok 6 (mkRange (mkPos 0 6) (mkPos 0 11)) TIdentifier [97;66;101;116;97])); (2, AL [])] [];
+    Node KAstGlobalVariableDeclaration [70;98] 12 (mkRange (mkPos 1 0) (mkPos 1 10)) [(1, AT (mkTok 12 (mkRange (mkPos 1 0) (mkPos 1 2)) TIdentifier [70;98])); (6, AN 0)] [
+      Node KAstTypeBasic [97;98;101;116;97] 17 (mkRange (mkPos 1 5) (mkPos 1 10)) [(0, AT (mkTok 17 (mkRange (mkPos 1 5) (mkPos 1 10)) TIdentifier [97;98;101;116;97]))] []];
+    Node KAstFunction [71;101;116;76;105;110;107] 23 (mkRange (mkPos 2 0) (mkPos 5 7)) [(5, AL [(mkTok 100 (mkRange (mkPos 5 0) (mkPos 5 7)) TEndFunc [101;110;100;102;117;110;99])]); (6, AN 0)] [
+      Node KAstTerminal [71;101;116;76;105;110;107] 28 (mkRange (mkPos 2 5) (mkPos 2 12)) [(0, AT (mkTok 28 (mkRange (mkPos 2 5) (mkPos 2 12)) TIdentifier [71;101;116;76;105;110;107]))] [];
+      Node KAstTypeBasic [105;110;116;52] 54 (mkRange (mkPos 2 31) (mkPos 2 35)) [(0, AT (mkTok 54 (mkRange (mkPos 2 31) (mkPos 2 35)) TIdentifier [105;110;116;52]))] [];
+      Node KAstParameterDeclarationList [112;97;114;97;109;95;100;101;99;108;115] 35 (mkRange (mkPos 2 12) (mkPos 2 23)) [] [
+        Node KAstParameterDeclaration [112;50] 36 (mkRange (mkPos 2 13) (mkPos 2 22)) [(1, AT (mkTok 36 (mkRange (mkPos 2 13) (mkPos 2 15)) TIdentifier [112;50])); (7, AL [])] [
+          Node KAstTypeBasic [105;110;116;52] 41 (mkRange (mkPos 2 18) (mkPos 2 22)) [(0, AT (mkTok 41 (mkRange (mkPos 2 18) (mkPos 2 22)) TIdentifier [105;110;116;52]))] []]];
+      Node KAstMethodBody [109;101;116;104;111;100;95;98;111;100;121] 61 (mkRange (mkPos 3 2) (mkPos 4 19)) [] [
+        Node KAstLocalVariableDeclaration [71;101;116;76;105;110;107] 61 (mkRange (mkPos 3 2) (mkPos 3 20)) [(1, AT (mkTok 65 (mkRange (mkPos 3 6) (mkPos 3 13)) TIdentifier [71;101;116;76;105;110;107]))] [
+          Node KAstTypeBasic [105;110;116;52] 75 (mkRange (mkPos 3 16) (mkPos 3 20)) [(0, AT (mkTok 75 (mkRange (mkPos 3 16) (mkPos 3 20)) TIdentifier [105;110;116;52]))] []];
+        Node KAstBinaryOp [61] 82 (mkRange (mkPos 4 2) (mkPos 4 19)) [(4, AT (mkTok 84 (mkRange (mkPos 4 4) (mkPos 4 5)) TEquals [61]))] [
+          Node KAstTerminal [120] 82 (mkRange (mkPos 4 2) (mkPos 4 3)) [(0, AT (mkTok 82 (mkRange (mkPos 4 2) (mkPos 4 3)) TIdentifier [120]))] [];
+          Node KAstBinaryOp [46] 86 (mkRange (mkPos 4 6) (mkPos 4 19)) [(4, AT (mkTok 88 (mkRange (mkPos 4 8) (mkPos 4 9)) TDot [46]))] [
+            Node KAstTerminal [70;98] 86 (mkRange (mkPos 4 6) (mkPos 4 8)) [(0, AT (mkTok 86 (mkRange (mkPos 4 6) (mkPos 4 8)) TIdentifier [70;98]))] [];
+            Node KAstMethodCall [71;101;116;76;105;110;107] 89 (mkRange (mkPos 4 9) (mkPos 4 19)) [] [
+              Node KAstTerminal [49] 97 (mkRange (mkPos 4 17) (mkPos 4 18)) [(0, AT (mkTok 97 (mkRange (mkPos 4 17) (mkPos 4 18)) TNumericLiteral [49]))] []]]]]]].
+
